@@ -114,6 +114,15 @@ fn main() {
         series.push(gen_series(&mut rng, len));
     }
 
+    // large-magnitude integers (null-free, so the i32 element type is exercised): each value fits i32, the squares do
+    // not — the closures accumulate in f64, an accumulation moved into the element type would overflow here
+    for i in 0..(if thorough { 60 } else { 12 }) {
+        let len = rng.range(3, 12) as usize;
+        let xs: Vec<f64> = (0..len).map(|_| *rng.pick(&[46341.0, 50000.0, -70000.0, 65536.0, 3001.0, -46342.0])).collect();
+        let _ = i;
+        series.push((xs, "style=big_int nulls=none".to_string()));
+    }
+
     for (xs, stags) in series.iter() {
         let len = xs.len();
         let small = stags.contains("exhaustive");
